@@ -43,11 +43,12 @@ static char expect[HX_OUT_MAX + 8];
 static int elen;
 static int calls[6];
 
-#define NKINDS 12
+#define NKINDS 18
 #ifndef KBASE
 #define KBASE 0 /* result kinds KBASE..KBASE+5 are used by this case (all twelve at once did not finish in 600 s) */
 #endif
-static const char * const item_text[NKINDS] = {"1", "7", "\"x\"", "M", "#11a", "#12cd", "#H1FF", "#B101", "-3", "1.5", "2.5", "#Q17"};
+static const char * const item_text[NKINDS] = {"1", "7", "\"x\"", "M", "#11a", "#12cd", "#H1FF", "#B101", "-3", "1.5", "2.5", "#Q17",
+                                               "#10", "#10", "1,2", "ab", "200", "-5"};
 
 static void emit(scpi_t * c, int kind) {
     switch (kind) {
@@ -66,7 +67,13 @@ static void emit(scpi_t * c, int kind) {
         case 8: SCPI_ResultInt64(c, -3); break;
         case 9: vm_snprintf_text = "1.5"; SCPI_ResultDouble(c, 1.5); break;
         case 10: vm_snprintf_text = "2.5"; SCPI_ResultFloat(c, 2.5f); break;
-        default: SCPI_ResultUInt64Base(c, 15, 8); break;
+        case 11: SCPI_ResultUInt64Base(c, 15, 8); break;
+        case 12: SCPI_ResultArbitraryBlock(c, "", 0); break; /* empty block */
+        case 13: { static const int16_t none[1] = {0}; SCPI_ResultArrayInt16(c, none, 0, SCPI_FORMAT_NORMAL); break; } /* empty binary array */
+        case 14: { static const uint8_t two[2] = {1, 2}; SCPI_ResultArrayUInt8(c, two, 2, SCPI_FORMAT_ASCII); break; } /* two items */
+        case 15: SCPI_ResultCharacters(c, "ab", 2); break;
+        case 16: SCPI_ResultUInt8(c, 200); break;
+        default: SCPI_ResultInt16(c, -5); break;
     }
 }
 
